@@ -16,6 +16,7 @@ import (
 	"sync"
 	"sync/atomic"
 	"time"
+	"unsafe"
 
 	"golang.org/x/tools/go/ssa"
 )
@@ -168,14 +169,24 @@ func (P *Program) runPath(wk *Worker, j *Job, opts *Options) {
 	}
 	p := &Path{h: h, w: wk, opts: opts, trail: j.trail, pcset: map[int32]bool{}, vseen: map[int32]bool{},
 		inames: map[string]bool{}, funcs: map[*ssa.Function]int64{}, tokens: map[int32]*Token{},
-		pool: &poolModel{bags: map[*value][]value{}}, extra: map[string]interface{}{}}
+		pool: &poolModel{bags: map[*value][]value{}}, extra: map[string]interface{}{}, ranges: map[int32]*rng{}}
 	m := Model{}
 	for k, v := range j.model {
 		m[k] = v
 	}
 	p.setModel(m)
 	p.sched = newSched(p)
-	i := P.newInterpreter(p)
+	if wk.base == nil || wk.baseProg != P {
+		if err := P.buildBase(wk, opts); err != "" {
+			h.mu.Lock()
+			h.EngineErrors = append(h.EngineErrors, "package initialisation failed: "+err)
+			h.mu.Unlock()
+			return
+		}
+	}
+	i := &interpreter{prog: P.Prog, globals: wk.base.fork(), baseGlobals: wk.base.globals, sizes: P.sizes, goroutines: 1,
+		reflectPackage: P.reflectPackage, errorMethods: P.errorMethods, rtypeMethods: P.rtypeMethods,
+		runtimeErrorString: P.runtimeErrorString, p: p}
 	terminal := "return"
 	func() {
 		defer func() {
@@ -228,7 +239,6 @@ func (P *Program) runPath(wk *Worker, j *Job, opts *Options) {
 				h.mu.Unlock()
 			}
 		}()
-		P.runInits(i)
 		call(i, nil, token.NoPos, h.Fn, nil)
 	}()
 	// merge path results
@@ -411,3 +421,39 @@ func NewHarnessRun(name string, fn *ssa.Function) *HarnessRun { return newHarnes
 
 // Add merges solver statistics.
 func (s *SolverStats) Add(o SolverStats) { s.add(o) }
+
+// buildBase runs the package initialisers once for this worker and classifies the resulting heap.
+func (P *Program) buildBase(wk *Worker, opts *Options) (errmsg string) {
+	p := &Path{h: newHarnessRun("<init>", nil), w: wk, opts: opts, pcset: map[int32]bool{}, vseen: map[int32]bool{},
+		inames: map[string]bool{}, funcs: map[*ssa.Function]int64{}, tokens: map[int32]*Token{},
+		pool: &poolModel{bags: map[*value][]value{}}, extra: map[string]interface{}{}, ranges: map[int32]*rng{}}
+	p.setModel(Model{})
+	p.sched = newSched(p)
+	i := P.newInterpreter(p)
+	func() {
+		defer func() {
+			if r := recover(); r != nil {
+				errmsg = fmt.Sprintf("%v | %s", r, p.panicTrace)
+				if tp, ok := r.(targetPanic); ok {
+					errmsg = panicString(tp) + " | " + p.panicTrace
+				}
+			}
+		}()
+		P.runInits(i)
+	}()
+	if errmsg != "" {
+		return
+	}
+	b := &baseState{globals: i.globals, shared: &reachSet{cells: map[*value]bool{}, conts: map[unsafe.Pointer]bool{}, maps: map[uintptr]bool{}}}
+	for _, g := range P.globals {
+		if ownGlobal(g) {
+			b.own = append(b.own, g)
+		} else {
+			cell := i.globals[g]
+			b.shared.cells[cell] = true
+			b.shared.walk(*cell)
+		}
+	}
+	wk.base, wk.baseProg = b, P
+	return ""
+}
